@@ -88,6 +88,18 @@ var zzContexts = []zzCtx{
 	{"function g(q) { return q; } function f(p) { H } f(1);", true, true},
 	{"x = a ? 1 : 2; H", true, false},
 	{"switch (a) { case 1 { t(1); } default { t(2); } } H", true, false},
+	// constructs of which a later part overrides, hides or makes unreachable the part with the hole
+	{"function f(p) { H } function f(p) { return 1; } f(1);", true, true},
+	{"switch (a) { case 1 { H } case 1 { t(1); } }", true, false},
+	{"if (false) { H }", true, false},
+	{"while (1 == 2) { H }", true, false},
+	{"function never(p) { H }", true, true},
+	{"y = {\"k\": H, \"k\": 2};", false, false},
+	{"y = {\"k\": 1, \"k\": H};", false, false},
+	{"y = {1: H, 1: 2, 1: 3};", false, false},
+	{"y = [H, 1][1];", false, false},
+	{"y = false && H;", false, false},
+	{"y = true ? 1 : H;", false, false},
 	{"x = H;", false, false},
 	{"return H;", false, false},
 	{"t(H);", false, false},
@@ -178,7 +190,7 @@ func ZZ_C13_FragmentInContext(sv *zzsv.T) {
 			c = zzContexts[sv.Choice("context", len(zzContexts))]
 		} else {
 			// outer levels: statement contexts only
-			c = zzContexts[sv.Choice("outer", 12)]
+			c = zzContexts[sv.Choice("outer", sv.Param("ctx.outer", 6, 12))]
 		}
 		if c.stmt && !isStmt {
 			text += ";"
